@@ -74,7 +74,9 @@ def rand_act(rnd, nfn, nsl, recursive_bias=0.45):
         return ["rec2", rnd.randrange(nfn), rnd.randrange(nsl), lim, rnd.randrange(nfn), rnd.randrange(nsl), None]
     if r < 0.8:
         return ["out", rnd.randint(-2, 5)]
-    if r < 0.85:
+    if r < 0.83:
+        return ["throw", 0]  # the stack gives out in THIS branch: it alone becomes the sentinel (documented)
+    if r < 0.87:
         return ["hist", []]
     return ["hist", [[o, rnd.choice([0, 1, 2, 3])] for o in rnd.sample(range(-1, 6), rnd.randint(1, 3))]]
 
